@@ -7,7 +7,7 @@
 
     C14_group_ok          every group returned by the pass is `GroupOK`
     C14_group_check_sound the executable group checker used on native-order runs is sound
-    C14_task              the fused sub-graph computes what the unfused member tasks compute
+    C14_task              the fused sub-graph (nested groups at any position) computes what the unfused member tasks compute
     C14_meta              npartitions / ndim (meta) of `Fused G` are those of `G[0]`
     C14_terminates        a successful pass strictly decreases the number of reachable blockwise nodes
     C14_loop_terminates   hence the outer loop of `optimize_blockwise_fusion` stops
@@ -69,38 +69,35 @@ example : GroupOK C14Ex.dag 4 [4, 3, 2] := C14_group_check_sound _ _ _ (by decid
 
 /-! ### 2. the fused task -/
 
-/-- For a (possibly nested) `Fused` node accepted by `fusedOK`, the value of its task for partition
-    `index` — `dask.core.get` on the dict built by `Fused._task(index)` with the placeholders `"_j"`
-    bound to the values `ev` of the positional arguments — equals the value of the innermost first
-    member's key `(root, index)` in the graph of the *unfused* member tasks `Blockwise._task(i)`,
-    with the same values `ev` for every key outside the group.  For every interpretation `I` of the
-    members' operations, every `ev`, all sufficiently large fuels on both sides (so neither side is
-    the fuel-exhaustion error). -/
+/-- For a `Fused` node accepted by `fusedOK` — nested groups at any position and depth, as they arise
+    when a collection is built on an already optimised one — the value of its task for partition
+    `index` (`dask.core.get` on the dict built by `Fused._task(index)` with the placeholders `"_j"`
+    bound to the values `ev` of the positional arguments) equals the value of the first member's key
+    `(exprs[0], index)` in the graph of the *unfused* member tasks `Blockwise._task(i)` (a nested group
+    standing for its first member), with the same values `ev` for every key outside the group.
+    For every interpretation `I` of the members' operations, every `ev`, all sufficiently large fuels
+    on both sides (so neither side is the fuel-exhaustion error). -/
 theorem C14_task (I : Interp) (dag : Dag) (f : Node) (index : Nat) (ev : FKey → V)
     (hok : fusedOK dag f = true) (hi : index < f.npart) (N N' : Nat)
-    (hN : 3 * f.name + 4 ≤ N) (hN' : f.name ≤ N') :
+    (hN : 2 * f.name + 2 ≤ N) (hN' : f.name ≤ N') :
     fusedValue I dag f index ev N =
-      run I (memberGraph dag (flat dag (f.name + 1) f)) (fun k => some (ev k)) N'
-        (FKey.part ((flat dag (f.name + 1) f).headD 0) index) :=
+      run I (memberGraph dag (flat dag (f.name + 1) f) (nested dag (f.name + 1) f)) (fun k => some (ev k)) N'
+        (FKey.part (f.members.headD 0) index) :=
   fused_task_correct I dag f index ev hok hi N N' hN hN'
 
 example : fusedOK dag2 f7 = true := by decide
-example : flat dag2 8 f7 = [5, 4, 3] := by decide
+example : flat dag2 8 f7 = [5, 4, 3] ∧ nested dag2 8 f7 = [6] := by decide
 example (ev : FKey → V) : fusedValue I0 dag2 f7 2 ev 25 =
-    run I0 (memberGraph dag2 [5, 4, 3]) (fun k => some (ev k)) 7 (FKey.part 5 2) :=
+    run I0 (memberGraph dag2 [5, 4, 3] [6]) (fun k => some (ev k)) 7 (FKey.part 6 2) :=
   C14_task I0 dag2 f7 2 ev (by decide) (by decide) 25 7 (by decide) (by decide)
 
-/-! #### nested groups that are not the first member (reachable when a collection is built on an
-     already optimised one): OPEN DEFECT of `Fused._task` on the current tree.
-
-  Full statement (false for the current code): `C14_task` for every `Fused` node the pass can produce.
-  `C14_task` above is the proven part (`fusedOK` admits nested groups in first position only).
-  The witness below is the plan of
+/-! #### regression witness of the fixed defect "a nested Fused group overwrote members of the
+     enclosing group with its dependency placeholders":
       d = 1 - df.sum(); inner = (df + (2 + d)).optimize(); q = inner + d
   (0 = FromPandas, 1 = frame op, 2 = TreeReduce, 3 = `1 - sum` = d, 4 = `2 + d`, 5 = `df + …`,
    6 = Fused[5,4] = inner with external dependencies [0, 3], 7 = `inner + d`, 8 = Fused[7, 3, 6]):
-  member 3 is written before the nested group 6, whose placeholder entry `(3, 0) ↦ "_1"` then
-  overwrites it; `"_1"` is bound to the outer group's second dependency (node 0). -/
+  member 3 is written before the nested group 6, which depends on it.  Before the fix the nested
+  group's placeholder entry `(3, 0) ↦ "_1"` overwrote member 3's task. -/
 
 namespace C14Ex
 def dag3 : Dag :=
@@ -119,12 +116,12 @@ def ev1 : FKey → V
   | _ => V.err
 end C14Ex
 
-/-- the order checker rejects the witness … -/
-theorem C14_task_nested_counterexample_check : nestOrderOK dag3 f8 = false := by decide
-
-/-- … and indeed the fused task computes something else than the unfused member tasks. -/
-theorem C14_task_nested_counterexample :
-    fusedValue I1 dag3 f8 0 ev1 40 ≠ run I1 (refGraph dag3) (fun k => some (ev1 k)) 40 (FKey.part 7 0) := by
+example : fusedOK dag3 f8 = true := by decide
+example : fusedValue I1 dag3 f8 0 ev1 40 =
+    run I1 (memberGraph dag3 [7, 3, 5, 4] [6]) (fun k => some (ev1 k)) 40 (FKey.part 7 0) :=
+  C14_task I1 dag3 f8 0 ev1 (by decide) (by decide) 40 40 (by decide) (by decide)
+/-- … and the value is the one of the completely unfused plan -/
+example : fusedValue I1 dag3 f8 0 ev1 40 = run I1 (refGraph dag3) (fun k => some (ev1 k)) 40 (FKey.part 7 0) := by
   decide
 
 /-! ### 3. meta -/
